@@ -100,8 +100,11 @@ def run(ctx, cases_override=None):
     runs = [r for r in trace if r["ev"] == "Run"]
     bases = [r for r in trace if r["ev"] == "Base"]
     reporters = sorted({p["r"] for b in bases for p in b["reports"]})
-    # vacuity guard: the relational predicate says nothing about a name that never reports in any base run
-    if cases_override is None:
+    changed = sum(1 for r in runs if {(p["r"], p["k"]) for p in r["reports"]} !=
+                  {(p["r"], p["k"]) for p in bases[r["scen"] - 1]["reports"]})
+    sample_i = len(runs) // 3
+    # vacuity guard: without any violation, the relational predicate says nothing about a name that never reports in a base run
+    if cases_override is None and not viols:   # a violation that was observed stands on its own
         import re
         with open(os.path.join(vlib.SPEC_DIR, "Dispatch.tla")) as f:
             m = re.search(r"CheckNames == <<(.*?)>>", f.read(), re.S)
@@ -110,9 +113,6 @@ def run(ctx, cases_override=None):
         if len(names) != 27 or silent:
             raise MachineryError("vacuous: no base run of this tier reports a problem under %s (rule files / scenarios no longer "
                                  "trigger these checks on this tree)" % silent)
-    changed = sum(1 for r in runs if {(p["r"], p["k"]) for p in r["reports"]} !=
-                  {(p["r"], p["k"]) for p in bases[r["scen"] - 1]["reports"]})
-    sample_i = len(runs) // 3
     cov = {
         "states": sum(m["distinct"] or 0 for m in mcs),
         "transitions": sum(m["generated"] or 0 for m in mcs),
